@@ -112,6 +112,8 @@ LITERAL_STRESS = {
         'a = 0xFF_FF\nb = 0o17\nc = 0b1010_1010\nd = 1_000_000\ne = 1e400\nf = 3j\ng = 0.\nh = .5e-3\ni = 99999999999999999999999999999999999999\nj = -0\n',
         'a = "a" "b" \'c\'\nb = ("x"\n     "y")\nc = "\\\n"\nd = "tab\\there"\ne = "nul\\0x"\nf = "\\777"\ng = b"\\\'"\nh = "%s %d %%" % ("s", 1)\n',
         'a = [b"\\xff", "\\udc80", b""]\nb = {b"\\xfe": "\\x7f"}\nc = (b"\\x80",)\nd = lambda: b"\\xc3\\x28"\n',
+        # dotted plain imports (rewritten textually by the python pre-processing) followed by comments and names full of regex syntax
+        'import os.path  # needed for join (see the helper below\nimport xml.dom  # c++ [todo\nimport a.b.c  # \\d+ * ? {2,\nsep = os.path.sep\nnode = xml.dom.Node\nx = a.b.c.value\n',
     ],
     "javascript": [
         'var a = `tpl ${1 + 2} \\u{1F600}`;\nvar b = /ab+c\\/[\\]"]/gi;\nvar c = 123n;\nvar d = 1_000;\nvar e = "\\xff\\u00e9\\u{10FFFF}";\nvar f = \'\\\n\';\nvar g = 0x1F + 0o17 + 0b11;\nvar h = .5e-3;\n',
